@@ -143,6 +143,44 @@ def check_assign(case):
             raise Violation("subregion-shared-between-meshes", "an in-place translation of one mesh moved the subregions "
                                                                "of a second mesh built from the same dictionary")
         c13.check_mesh_inv(other, "after the first mesh moved")
+        # copies that change nothing (a translation by zero, a scaling by one, a full turn) are copies all the same:
+        # moving one of them, or the mesh itself, in place leaves the others - region AND subregions - where they were
+        zero = [tuple(0 for _ in range(nd)), tuple(0.0 for _ in range(nd)), np.zeros(nd), [0] * nd][case["side"] + 2 * (ax % 2)]
+        twins = [("translate(0)", m2.translate(zero)), ("scale(1)", m2.scale(1)), ("scale(1.0)", m2.scale(1.0))]
+        if nd >= 2:
+            twins.append(("rotate90(k=4)", m2.rotate90(dims[0], dims[1], k=4)))
+            twins.append(("rotate90(k=0)", m2.rotate90(dims[0], dims[1], k=0)))
+        for name, tw in twins:
+            require(tw is not m2, "neutral-copy-is-the-object", name)
+            mine, theirs = c13.snap_mesh(m2), c13.snap_mesh(tw)
+            tw.translate(tuple(2 * float(c) for c in tw.cell), inplace=True)
+            tw.scale(2.0, inplace=True)
+            if c13.snap_mesh(m2) != mine:
+                raise Violation("neutral-copy-shares-state", f"moving the result of {name} in place moved the mesh it came from")
+            c13.check_mesh_inv(m2, f"after the result of {name} moved")
+            theirs = c13.snap_mesh(tw)
+            m2.translate(tuple(-float(c) for c in m2.cell), inplace=True)
+            if c13.snap_mesh(tw) != theirs:
+                raise Violation("neutral-copy-shares-state", f"moving the mesh in place moved the result of {name}")
+            c13.check_mesh_inv(tw, f"result of {name} after the source moved")
+        tag("neutral-copies")
+        # one reference point in every accepted spelling (tuple, list, array; a plain number in 1-d; the origin included):
+        # region and subregions are scaled about the SAME point, so all spellings give the same mesh
+        for ref_vals in ([0.0] * nd, [float(c) for c in m2.cell]):
+            forms = {"tuple": tuple(ref_vals), "list": list(ref_vals), "array": np.array(ref_vals)}
+            if nd == 1:
+                forms.update({"number": ref_vals[0], "numpy-number": np.float64(ref_vals[0]), "int-number": int(ref_vals[0])
+                              if float(ref_vals[0]).is_integer() else ref_vals[0]})
+            outcomes = {}
+            for fname, ref in forms.items():
+                try:
+                    outcomes[fname] = c13.snap_mesh(m2.scale(2.0, reference_point=ref))
+                except ValueError as e:
+                    outcomes[fname] = "ValueError: " + str(e)[:60]
+            if len({repr(v) for v in outcomes.values()}) != 1:
+                diff = {k_: (v if isinstance(v, str) else "ok") for k_, v in outcomes.items()}
+                raise Violation("reference-point-spelling", f"scaling about {ref_vals} depends on how the point is written: {diff}")
+        tag("reference-spellings")
     else:
         try:
             assign()
